@@ -87,6 +87,7 @@ type Ctx struct {
 	definesUsed map[string]bool
 	stableFV  map[string]bool
 	provIDs   map[string]int
+	chanLinksUsed map[string]bool
 	inst      string // instance label (opt instances=...), appended to obligation names
 }
 
